@@ -67,6 +67,16 @@ func c17Run(c *Ctx) {
 			spec = specs[3]
 		}
 		desc = spec.Name
+	case r.Chance(0.3):
+		name := c15Names[r.Intn(len(c15Names))]
+		req, _, ok := SampleValidReq(r, name, true)
+		if !ok {
+			c.Skip("no valid request")
+			return
+		}
+		// all parameters but the first input are shared weights
+		spec = specFromOpReq(r, req, ^uint64(0)&^1|(r.U64()&1))
+		desc = trunc(req.Describe(), 300)
 	default:
 		p := genProgram(r, 8)
 		if len(p.Nodes) == 0 {
